@@ -138,7 +138,7 @@ def records(lens):
                 I=sg.intensity.copy())
 
 
-def cmp_records(rec, clause, A, B, scale, tol, msg, sx=1.0, sy=1.0, lens_scale=1.0, skipA=None, key=None):
+def cmp_records(rec, clause, A, B, scale, tol, msg, sx=1.0, sy=1.0, lens_scale=1.0, skipA=None, key=None, iterated=False):
     """B must equal A with x,L multiplied by sx; y,M by sy; positions and opd by lens_scale."""
     worst = 0.0
     same = True
@@ -152,6 +152,18 @@ def cmp_records(rec, clause, A, B, scale, tol, msg, sx=1.0, sy=1.0, lens_scale=1
             rec.event('rays_excluded_steep', int(steep.sum()))
             A = {f: np.where(steep[None, :], np.nan, v) for f, v in A.items()}
             B = {f: np.where(steep[None, :], np.nan, v) for f, v in B.items()}
+    if lens_scale != 1.0 and iterated and A['x'].shape == B['x'].shape:
+        # a lens and its scaled copy stop the Newton iteration of their sag-defined surfaces at the same ABSOLUTE
+        # tolerance, i.e. at different relative accuracy; a ray that one of the lenses loses further down (total
+        # reflection, miss) runs next to that limit and amplifies the difference without bound.  Such rays must be lost
+        # in the same places in both lenses (pattern), their numbers are not compared.
+        patt = bool(np.array_equal(np.isfinite(A['x']), np.isfinite(B['x'])))
+        same = same and patt
+        lostcol = ~(np.isfinite(A['x'][-1]) & np.isfinite(B['x'][-1]))
+        if lostcol.any() and not lostcol.all():
+            rec.event('rays_lost_downstream_not_compared', int(lostcol.sum()))
+            A = {f: np.where(lostcol[None, :], np.nan, v) for f, v in A.items()}
+            B = {f: np.where(lostcol[None, :], np.nan, v) for f, v in B.items()}
     _posA = A['x'] if (skipA is None or A['x'].shape[0] == B['x'].shape[0]) else np.delete(A['x'], skipA, axis=0)
     for f in ('x', 'y', 'z', 'L', 'M', 'N', 'opd', 'I'):
         if f not in A or f not in B:
@@ -334,8 +346,8 @@ def check_case(case, rec):
         lens2 = L.build(sp)
         lens2.trace_generic(Hx.copy(), Hy.copy(), Px.copy(), Py.copy(), wl)
         B = records(lens2)
-        cmp_records(rec, 'length-scaling', A, B, scale, tol * 10, f'lens with all lengths x {s:.4g}: heights/paths not x s or cosines changed',
-                    lens_scale=s)
+        cmp_records(rec, 'length-scaling', A, B, scale, tol * 10 + iter_tol * 10 / (scale * min(1.0, s)),
+                    f'lens with all lengths x {s:.4g}: heights/paths not x s or cosines changed', lens_scale=s, iterated=iter_tol > 0)
         f2a, f2b = float(lens.paraxial.f2()), float(lens2.paraxial.f2())
         se_a = np.asarray(lens.aberrations.seidels(), float)
         se_b = np.asarray(lens2.aberrations.seidels(), float)
